@@ -8,6 +8,7 @@ import Frugal.Props.Inst.F_valid_bitset
 import Frugal.Proofs.TypeKeyLemmas
 import Frugal.Props.Inst.F_facts_typeNodeCacheKeyed
 import Frugal.Props.Inst.F_skeleton_sharedWrites
+import Frugal.Props.Inst.F_facts_pointeeAfterLengthCheck
 namespace Frugal.C07
 open Frugal
 /-- the required-field verdict is independent of the pooled presence set's prior contents -/
@@ -118,5 +119,13 @@ theorem type_node_cache_code_is_the_model : Generated.facts.typeNodeCacheKeyed =
     (the pools are the remaining shared state: `presence_independent_of_pool`, `scratch_cleared`) -/
 theorem no_other_process_wide_state :
     Generated.facts.sharedWriteSiteList = Skeleton.sharedWrites := Instances.skeleton_sharedWrites
+
+/-- nothing of an earlier message in the destination of a failing call either: the field loop stores the
+    pointee of an optional scalar pointer — memory that comes uncleared from the allocator — into the
+    destination only after the value's bytes are known to be there, so it is always written (D26: the
+    allocation used to come first, and a truncated message left the field pointing at stale bytes);
+    regenerated fact about `Decode`, the `staleProbe` stream looks for the bytes themselves -/
+theorem no_unwritten_pointee_published : Generated.facts.pointeeAfterLengthCheck = true :=
+  Instances.facts_pointeeAfterLengthCheck
 
 end Frugal.C07
